@@ -23,6 +23,9 @@ runpat=$(grep -ho "^func Test[A-Za-z0-9_]*" "$demo" 2>/dev/null | sed 's/^func /
 [ -n "$runpat" ] && raceflag="$raceflag -run ^($runpat)\$"
 [ $# -gt 0 ] || set -- "$prop"
 echo "== seed $D (property $prop, demo $(basename "$demo") in $pkg)"
+# TRY_SEED_FAST=1: only apply the change and run the checks (used by the sensitivity self-test to
+# re-confirm stored seeds, whose demonstration and suite result were confirmed when they were kept)
+if [ -n "${TRY_SEED_FAST:-}" ]; then demo=""; fi
 if [ -n "$demo" ]; then
   cp "$demo" "$pkg/"
   if go test -vet=off -count=1 $raceflag "./$pkg/" >"$W/demo_clean.log" 2>&1; then echo "demo on clean tree: PASS"; else echo "demo on clean tree: FAIL (bad demo)"; tail -5 "$W/demo_clean.log"; fi
@@ -32,7 +35,9 @@ if [ -n "$demo" ]; then
   if go test -vet=off -count=1 $raceflag "./$pkg/" >"$W/demo_mut.log" 2>&1; then echo "demo with change: PASS (does not demonstrate)"; else echo "demo with change: FAIL (as intended)"; fi
   rm -f "$pkg/$(basename "$demo")"
 fi
-if go build ./... >"$W/build.log" 2>&1 && go test -vet=off -count=1 ./... >"$W/suite.log" 2>&1; then echo "existing suite with change: PASS"; else
+if [ -n "${TRY_SEED_FAST:-}" ]; then
+  go build ./... >"$W/build.log" 2>&1 || { echo "does not build"; exit 2; }
+elif go build ./... >"$W/build.log" 2>&1 && go test -vet=off -count=1 ./... >"$W/suite.log" 2>&1; then echo "existing suite with change: PASS"; else
   # xtime's TestJitterTicker is wall-clock sensitive: re-run failing packages alone before judging
   bad=$(grep -E "^FAIL\s" "$W/suite.log" | awk '{print $2}' | sort -u)
   still=""
